@@ -51,6 +51,18 @@ CORPUS = [
     "seq 1 0 0 0 f008 0 0 0 f008,0,0,0 aat:10,sls:40,sla:16",   # custom convention without rbp + preserved FP (fixes/C07-5)
     "seq 0 0 0 0 0 ff 0 0 e8,ff,0,0 aat:40,sls:8,sla:4",        # stale kAlignedVecSR on a 4-aligned stack (fixes/C07-6)
     "seq 2 0 0 0 180000 0 0 0 - aat:10,sls:40,ssa:29",          # a64: stack arguments through the preserved x29 (fixes/C07-7)
+    # shapes of the independently seeded changes (seeded/C07-1..3): keep them in every run
+    "seq 1 0 0 0 0 0 0 0 - uca:64,sla:16,sls:40",              # C07-1: local alignment set after a larger call-area alignment
+    "seq 1 6 1 0 0 0 0 0 - sca:64,sla:4",
+    "seq 0 16 0 0 0 0 0 0 - uca:32,sla:16,sls:24",
+    "seq 2 0 0 0 0 0 0 0 - uca:16,sla:8,sls:24",
+    "frame 1 0 1 0 0 0 8000 0 0 - 0 40 8 8 16 255",            # C07-2: Win64, dirty xmm15, local size not a multiple of 16
+    "frame 1 3 0 0 0 0 40 0 0 - 0 24 8 0 0 255",               #        vectorcall, dirty xmm6
+    "frame 1 16 0 0 0 0 100 0 0 - 0 100 4 8 8 255",            #        LightCall2, dirty xmm8
+    "frame 0 16 0 0 0 0 20 0 0 - 0 40 0 8 16 255",             #        32-bit LightCall2, dirty xmm5
+    "frame 2 0 0 0 0 0 100 0 0 - 0 40 16 0 0 255",             # C07-3: AArch64 leaf, no dirty callee-saved GP register, dirty d8
+    "frame 2 33 0 0 0 0 80000000 0 0 - 0 8 8 0 16 255",        #        light-call convention, dirty v31
+    "frame 2 0 0 0 0 0 ff00 0 0 - 0 0 0 0 0 255",
     "frame 1 0 0 0 0 f008 0 0 0 - 0 40 8 0 0 255",
     "frame 1 0 1 0 10 f0c8 ffc0 0 0 - 0 100 32 32 16 255",
     "frame 1 0 0 0 0 f008 0 0 0 - 0 40 64 0 0 255",
